@@ -31,9 +31,9 @@ public:
 };
 
 QXmppTuneItemPrivate::QXmppTuneItemPrivate()
-    : length(0),
-      rating(0)
+    : length(0)
 {
+    // no rating: 0 is not a valid rating (setRating(0) resets it), so it must not be serialized
 }
 /// \endcond
 
